@@ -166,6 +166,32 @@ theorem discount_zero_rep (t : Vec K) (D : CSM K) (ht : WF t.dim t.entries) (i :
   have hne : i ≠ k := fun e => hk (e ▸ hz)
   simp only [denRows, List.getD_eq_getElem?_getD, List.getElem?_set_ne hne]
 
+/-- the same, at the level of the stored entry lists (not only the dense values): two distrust
+    matrices with equally many rows whose rows coincide for every peer with a non-zero score
+    produce the *identical* result. -/
+theorem discount_zero_rep_exact (t : Vec K) (D D' : CSM K) (hs : Sorted t.entries)
+    (hl : D'.rows.length = D.rows.length)
+    (h : ∀ i, denE t.entries i ≠ 0 → D'.rows.getD i [] = D.rows.getD i []) :
+    discountTrustVector t D' = discountTrustVector t D := by
+  unfold discountTrustVector
+  rw [zipIdx_eq_map_of_length_eq D.rows D'.rows hl,
+    discountLoop_map_rows (fun p => D'.rows.getD p.2 []) t.entries D.rows.zipIdx t.entries hs
+      (zipIdx_pairwise _ 0)]
+  intro p hp hne
+  rw [h p.2 hne]
+  obtain ⟨_, h1, h2⟩ := List.mem_zipIdx hp
+  simp only [Nat.sub_zero, Nat.zero_add] at h1 h2
+  rw [h2, List.getD_eq_getElem?_getD, List.getElem?_eq_getElem h1]; rfl
+
+/-- replacing the distrust row of a zero-score peer leaves the result *identical*. -/
+theorem discount_zero_rep_set_exact (t : Vec K) (D : CSM K) (hs : Sorted t.entries) (i : Nat)
+    (hz : denE t.entries i = 0) (r : Row K) :
+    discountTrustVector t { D with rows := D.rows.set i r } = discountTrustVector t D := by
+  apply discount_zero_rep_exact t D _ hs (by simp)
+  intro k hk
+  have hne : i ≠ k := fun e => hk (e ▸ hz)
+  simp only [List.getD_eq_getElem?_getD, List.getElem?_set_ne hne]
+
 /-! ### non-vacuity at `K := ℚ` -/
 
 section examples
@@ -212,10 +238,17 @@ example : WF 3 (discountTrustVector exT exDm).entries :=
     intro r hr
     simp only [exDm, List.mem_cons, List.not_mem_nil, or_false] at hr
     rcases hr with rfl | rfl | rfl <;> simp [WF, Sorted, exT])
+/-- the concrete outcome: peer 2 loses `t_0 * D_02 = 1/2`; the row of zero-score peer 1 is ignored -/
+example : discountTrustVector exT exDm = ⟨3, [⟨0, 1/2⟩, ⟨2, 0⟩]⟩ := by
+  simp [discountTrustVector, exT, exDm, discountLoop, List.zipIdx, Vec.scale, scaleEntries,
+    subEntries, negEntries]
 example (r : Row ℚ) (j : Nat) :
     denE (discountTrustVector exT { exDm with rows := exDm.rows.set 1 r }).entries j
       = denE (discountTrustVector exT exDm).entries j :=
   discount_zero_rep exT exDm exT_wf 1 (by simp [exT]) r j
+example (r : Row ℚ) :
+    discountTrustVector exT { exDm with rows := exDm.rows.set 1 r } = discountTrustVector exT exDm :=
+  discount_zero_rep_set_exact exT exDm exT_wf.1 1 (by simp [exT]) r
 
 end examples
 
